@@ -47,6 +47,7 @@ package unary
 //@   modifies i, i.internal
 //@   loop 0 modifies &i.frame, &i.err, i.internal
 //@   loop 0 invariant domain.SpecIterWF(i.internal) && domain.SpecIterOK(i.internal)
+//@   loop 0 invariant domain.SpecIterIdx(i.internal) == old(domain.SpecIterIdx(i.internal)) && domain.SpecIterBounds(i.internal) == old(domain.SpecIterBounds(i.internal))
 //@   loop 0 invariant domain.SpecIterPos(i.internal) >= old(domain.SpecIterPos(i.internal))
 //@   loop 0 invariant forall k int :: old(domain.SpecIterPos(i.internal)) <= k && k < domain.SpecIterPos(i.internal) ==> domain.SpecIterDomainAt(i.internal, k).End <= i.view.End
 
@@ -64,6 +65,7 @@ package unary
 //@   modifies i, i.internal
 //@   loop 0 modifies &i.frame, &i.err, i.internal
 //@   loop 0 invariant domain.SpecIterWF(i.internal) && domain.SpecIterOK(i.internal)
+//@   loop 0 invariant domain.SpecIterIdx(i.internal) == old(domain.SpecIterIdx(i.internal)) && domain.SpecIterBounds(i.internal) == old(domain.SpecIterBounds(i.internal))
 //@   loop 0 invariant domain.SpecIterPos(i.internal) <= old(domain.SpecIterPos(i.internal))
 //@   loop 0 invariant forall k int :: domain.SpecIterPos(i.internal) < k && k <= old(domain.SpecIterPos(i.internal)) && 0 <= k && k < domain.SpecIterLen(i.internal) && old(domain.SpecIterValid(i.internal)) ==> domain.SpecIterDomainAt(i.internal, k).Start >= i.view.Start
 
